@@ -493,6 +493,8 @@ def streams(chk, run):
         rng = random.Random((seed * 1000003 + i) * 31 + 7)
         s, f = G.clash_schema(rng, hazard_rate=0.03 if i % 3 else 0.0)
         add(f)
+        if i % 4 == 1:
+            add({'ref.case_variant_spelling': G.respell_references(s, rng)})
         lst.append(s)
     out.append(('name-clash', lst, True, configs))
     lst = []
@@ -538,6 +540,8 @@ def streams(chk, run):
         rng = random.Random((seed * 1000003 + i) * 31 + 9)
         s, f = G.literal_schema(rng)
         add(f)
+        if i % 3 == 2:
+            add({'ref.case_variant_spelling': G.respell_references(s, rng)})
         lst.append(s)
     out.append(('literal-boundary', lst, True, configs))
     out.append(('literal-probe', G.literal_probes(), True, configs))
